@@ -69,16 +69,22 @@ func bubbleStacks() string {
 	buf := make([]byte, 1<<20)
 	n := runtime.Stack(buf, true)
 	var out []string
+	mine := ""
 	for i, g := range strings.Split(string(buf[:n]), "\n\n") {
-		if i == 0 { // the calling goroutine comes first
+		head, _, _ := strings.Cut(g, "\n")
+		if i == 0 { // the calling goroutine comes first: which bubble are we in?
+			if k := strings.Index(head, "synctest bubble "); k >= 0 {
+				mine = strings.TrimRight(head[k:], "]:")
+			}
 			continue
 		}
-		head, _, _ := strings.Cut(g, "\n")
 		// two goroutines of package testing/synctest itself belong to every bubble
 		if strings.Contains(g, "internal/synctest.Run(") || strings.Contains(g, "testing/synctest.testingSynctestTest(") {
 			continue
 		}
-		if strings.Contains(head, "synctest bubble") {
+		// only goroutines of THIS bubble (an earlier run of the same process may have left
+		// goroutines parked in its own, abandoned bubble)
+		if mine != "" && strings.Contains(head, mine+"]") || mine != "" && strings.Contains(head, mine+",") {
 			if len(g) > 1200 {
 				g = g[:1200] + "..."
 			}
